@@ -47,6 +47,8 @@ def stepLine (s : State) : List String → State × String
   | ["restore"] => let s' := restore s; (s', showState s')
   | ["addEdge"] => let s' := addEdge s; (s', showState s')
   | ["removeEdge"] => let s' := removeEdge s; (s', showState s')
+  | ["solveScale"] =>
+    if s.full then (s, "bad-op") else let s' := scaleSym (solveHalves s); (s', showState s')
   | ["geo", k] => match parseNat? k with
     | some k => (s, showList showRat ((List.range k).map (geoTotal s)))
     | none => (s, "bad-op")
